@@ -4,6 +4,7 @@ import (
 	"encoding/binary"
 	"encoding/json"
 	"fmt"
+	"github.com/mimiro-io/datahub/internal/verifhook"
 	"time"
 
 	"github.com/dgraph-io/badger/v4"
@@ -157,6 +158,7 @@ func flushDeletes(bs store.BadgerStore, ops *compactionInstruction, finalFlush b
 	if !finalFlush && len(ops.DeleteKeys) < strategy.flushThreshold() {
 		return false, nil
 	}
+	verifhook.Point("compact.beforeFlush")
 	err := bs.GetDB().Update(func(txn *badger.Txn) error {
 		bufferedKeys, err := strategy.flush(txn)
 		if err != nil {
@@ -190,6 +192,7 @@ func flushDeletes(bs store.BadgerStore, ops *compactionInstruction, finalFlush b
 	if err != nil {
 		return false, err
 	}
+	verifhook.Point("compact.afterFlush")
 	return true, nil
 }
 
